@@ -70,7 +70,7 @@ def run(ctx, pid, prop_mods, oracles, progs, rule, trusted=(), assumptions=(), p
     failures, nontriv, nchecked = [], 0, 0
     per_check = {}
     for r in recs:
-        if r["ast"].startswith("SYNTAX") or r["ast"].startswith("PANIC") or r["ast"].startswith("CRASH"):
+        if r["ast"].startswith(("SYNTAX", "PANIC", "CRASH", "HANG")):
             continue
         nchecked += 1
         clean = True
